@@ -37,7 +37,7 @@ PROPS = {
         monitor="mon_C01f"),
     "C02": P("Props/C02.v", [("pool-scn", 48, 400), ("chain-pool", 32, 250), ("probe-scn", 18, 72)],
         "Constant product: proved (mint = min of the two proportional shares, never more than proportional in either asset, hence "
-        "x*y/S^2 never decreases through a deposit; first deposit isqrt(a*b)); withdrawals (both pool types): the handler pays "
+        "x*y/S^2 never decreases through a deposit - also AT HANDLER LEVEL (DepositValue.v, C02_deposit_handler_never_dilutes: provide_liquidity on a funded two-asset pool emits one mint of m with m x <= a S, m y <= b S, adds exactly the attached coins to the reserves, hence x y (S+m)^2 <= (x+a)(y+b) S^2); first deposit isqrt(a*b)); withdrawals (both pool types): the handler pays "
         "exactly floor(reserve*burned/supply) per asset (after the repair fix: c886314; at most pro-rata, at least pro-rata minus "
         "one unit, any LP amount worth >= 1 unit redeemable) and burns exactly the LP received; LP is minted only by deposits and "
         "burned only by withdrawals (no other message emits a token-factory mint/burn). PARTIAL: the stableswap mint vs. exact "
